@@ -1,6 +1,7 @@
 (* Props/C01.v — C01 property theorems only. *)
 From Coq Require Import List ZArith Bool.
 From Verif Require Import Model.C01_BlobRead Model.C01_Resume Proofs.C01 Proofs.C01r.
+From Verif Require Proofs.Pins01.   (* pinned source conditions: re-checked whenever the source changes *)
 Import ListNotations.
 Open Scope Z_scope.
 
